@@ -226,6 +226,12 @@ impl EpochId {
     /// The initial epoch (epoch 0).
     pub const INITIAL: Self = Self(0);
 
+    /// Stamp of a version whose transaction has not committed yet.
+    ///
+    /// Later than every real epoch, so the version is visible to nobody but the
+    /// transaction that created it until commit re-stamps it with the commit epoch.
+    pub const PENDING: Self = Self(u64::MAX);
+
     /// Creates a new EpochId from a raw u64 value.
     #[inline]
     #[must_use]
